@@ -199,7 +199,9 @@ fn crafted(t: &mut Trace, rng: &mut Rng, lib_role: &str, scheme: u64, offset: u3
     if legacy {
         p1[4..8].copy_from_slice(&[0, 0, 0, 0]);
     } else {
-        p1[4..8].copy_from_slice(&[128, 0, 7, 2]);
+        // the version field of a digest-bearing packet is usually non-zero, but nothing says it must be
+        let ver = *rng.pick(&[[128u8, 0, 7, 2], [128, 0, 7, 2], [9, 0, 124, 2], [0, 0, 0, 0], [0, 0, 0, 1]]);
+        p1[4..8].copy_from_slice(&ver);
         // four bytes with sum == offset (or offset + 728 when a high preimage exists)
         let target = if high && offset + 728 <= 1020 { offset + 728 } else { offset };
         let mut left = target;
